@@ -153,4 +153,10 @@ theorem monitors_sound (kv : KV) (c : Caller) (op : Op) (aok sok : Bool) :
   ⟨MonSound.c01_denied_noeffect_sound kv c op aok sok, MonSound.c01_effect_only_if_granted_sound kv c op aok sok,
    MonSound.c01_list_exact_sound kv c op aok sok⟩
 
+/-- ...and `changes_only_granted` - whichever secrets a call changed, the caller holds the call's
+action on exactly those names - in every state that satisfies the store invariant. -/
+theorem monitor_changes_only_granted_sound (kv : KV) (c : Caller) (op : Op) (aok sok : Bool) (h : KV.Inv kv) :
+    c01_changes_only_granted (MonSound.obsOf kv c op aok sok) = true :=
+  MonSound.c01_changes_only_granted_sound kv c op aok sok h
+
 end Setec.C01
